@@ -20,7 +20,6 @@ const c13lRegressPart = "lockup-ledger-regress"
 // then answers "no lockup to claim" although the balance is recorded.
 const c13lFpElementsWrap = "C13/L/claim-refused/elements-counter-wrapped-to-zero"
 
-
 func c13lDetSim(t *testing.T, regime c13lRegime, height uint64) (*c13lSim, func()) {
 	restore := regime.install()
 	un := c13lUni()
